@@ -29,7 +29,7 @@ def strategy(tier):
 
     nf = st.lists(st.fixed_dictionaries({"body": st.lists(st.sampled_from(["nop", "xor", "push", "mark"]), min_size=1, max_size=3),
                                          "label": st.booleans()}), max_size=2)
-    return st.tuples(Lm.case_st(tier), nf).map(lambda t: {**t[0], "newfuncs": t[1]})
+    return st.tuples(Lm.case_st(tier, ivs=True), nf).map(lambda t: {**t[0], "newfuncs": t[1]})
 
 
 def budget(tier):
